@@ -5,6 +5,293 @@
 
 package mongokit
 
+// package-level error values (assigned once, by errors.New)
+//@ global ErrNotMatched != nil && spec.staticErr(ErrNotMatched)
+
+// ---------------------------------------------------------------------------
+// match.go: the logical laws of the query operators (C10).
+//
+// An operator returns nil (match), ErrNotMatched, or a hard error. The
+// comparison operators are type bracketed (compHolds); a condition on a path
+// holds if it holds for one of the values the path fans out to, or, when the
+// path did not fan out, for the value itself (matchUnwind / matchComp);
+// $ne, $nin and $nor are the exact negation of $eq, $in and $or with hard
+// errors passed through (matchNegate).
+
+//@ define knownOp(op) = op == "" || op == "$eq" || op == "$gt" || op == "$gte" || op == "$lt" || op == "$lte"
+//@ define compHolds(op, x, v) = spec.class(x) == spec.class(v) &&
+//@   ite(op == "" || op == "$eq", spec.cmp(x, v) == 0, ite(op == "$gt", spec.cmp(x, v) > 0, ite(op == "$gte", spec.cmp(x, v) >= 0,
+//@   ite(op == "$lt", spec.cmp(x, v) < 0, spec.cmp(x, v) <= 0))))
+
+//@ func matchNegate
+//@   tags C10
+//@   opt param.op = pure
+//@   modifies nothing
+//@   ensures [C10 name=negation] (result == nil) == (apply(op) == ErrNotMatched)
+//@   ensures [C10 name=negation-back] (result == ErrNotMatched) == (apply(op) == nil)
+//@   ensures [C10 name=errors-pass] imp(apply(op) != nil && apply(op) != ErrNotMatched, result == apply(op))
+
+//@ func matchUnwind
+//@   tags C10
+//@   opt param.op = pure
+//@   uses access
+//@   requires doc != nil && spec.wfVal(spec.VDoc(*doc))
+//@   let value = spec.allValue(*doc, path, true, merge)
+//@   let multi = spec.allMulti(*doc, path, true, merge)
+//@   modifies nothing
+//@   ensures [C10 name=element-matches] imp(is(value, VArr) && exists(k, 0, len(spec.arr(value)), apply(op, spec.arr(value)[k]) == nil &&
+//@     forall(j, 0, k, apply(op, spec.arr(value)[j]) == nil || apply(op, spec.arr(value)[j]) == ErrNotMatched)), result == nil)
+//@   ensures [C10 name=no-element] imp(!is(value, VArr) || forall(j, 0, len(spec.arr(value)), apply(op, spec.arr(value)[j]) == ErrNotMatched),
+//@     result == ite(!multi || yieldMerge, apply(op, value), ErrNotMatched))
+//@   ensures [C10 name=match-has-witness] imp(result == nil, (is(value, VArr) && exists(k, 0, len(spec.arr(value)), spec.witness(k) && apply(op, spec.arr(value)[k]) == nil)) ||
+//@     ((!multi || yieldMerge) && apply(op, value) == nil))
+//@   loop 0 invariant forall(j, 0, rangeindex + 1, apply(op, spec.arr(value)[j]) == ErrNotMatched)
+//@   loop 0 invariant spec.witness(rangeindex + 1)
+
+//@ func matchComp$1
+//@   tags C10
+//@   uses order
+//@   requires spec.wfVal(field) && spec.wfVal(v)
+//@   ensures [C10 name=table] imp(knownOp(op), (result == nil) == compHolds(op, field, v))
+//@   ensures [C10 name=match-or-not] imp(knownOp(op), result == nil || result == ErrNotMatched)
+//@   ensures [C10 name=unknown-operator] imp(!knownOp(op), result != nil && result != ErrNotMatched)
+
+//@ func matchComp
+//@   tags C10
+//@   pure docs
+//@   uses access order
+//@   requires doc != nil && spec.wfVal(spec.VDoc(*doc)) && spec.wfVal(v)
+//@   let value = spec.allValue(*doc, path, true, true)
+//@   let multi = spec.allMulti(*doc, path, true, true)
+//@   ensures [C10 name=match-or-not] imp(knownOp(op), result == nil || result == ErrNotMatched)
+//@   ensures [C10 name=value-or-element] imp(knownOp(op), (result == nil) ==
+//@     ((is(value, VArr) && exists(k, 0, len(spec.arr(value)), spec.witness(k) && compHolds(op, spec.arr(value)[k], v))) || (!multi && compHolds(op, value, v))))
+
+//@ func matchNe$1
+//@   tags C10
+//@   requires doc != nil && spec.wfVal(spec.VDoc(*doc)) && spec.wfVal(v)
+//@   ensures [C10] result == pure.matchComp(ctx, doc, "$eq", path, v)
+//@ func matchNe
+//@   tags C10
+//@   requires doc != nil && spec.wfVal(spec.VDoc(*doc)) && spec.wfVal(v)
+//@   let eq = pure.matchComp(ctx, doc, "$eq", path, v)
+//@   ensures [C10 name=exact-negation] (result == nil) == (eq == ErrNotMatched) && (result == ErrNotMatched) == (eq == nil)
+//@   ensures [C10 name=errors-pass] imp(eq != nil && eq != ErrNotMatched, result == eq)
+
+// ---------------------------------------------------------------------------
+// collection.go / filter.go / sort.go: skip and limit return precisely the
+// corresponding window of the matching documents of the (sorted) list (C13).
+// Lists are immutable sequences here (opt slices = value): none of these
+// functions writes into a list it did not allocate. F is the abstract sequence
+// of matching documents (specs/lists.smt2); Filter and Sort are tied to it by
+// trusted contracts, the window arithmetic of the callers is verified.
+
+//@ func Filter
+//@   trusted
+//@   uses lists
+//@   modifies nothing
+//@   let F = spec.filtered(list, *query, docs())
+//@   let n = ite(limit > 0 && limit < len(F), limit, len(F))
+//@   ensures imp(err == nil, len(result0) == n && forall(i, 0, n, result0[i] == F[i]))
+//@ func Sort
+//@   trusted
+//@   uses lists
+//@   modifies nothing
+//@   ensures imp(err == nil, result0 == spec.sortedBy(list, *doc, docs()))
+
+// The mutating methods of a collection write only the collection's own
+// structure (everything allocated at or after the collection object itself: a
+// collection never shares its set, indexes or maps with another one, see
+// Clone) and the documents handed to them; when they fail the collection may
+// be left half-modified (ghost.tainted, /verif/specs/runtime.contracts).
+// Trusted for now: the bodies are covered by the safety sweep only.
+
+//@ define failTaints(c) = imp(err == nil, ghost.tainted == old(ghost.tainted)) && imp(err != nil, ghost.tainted == upd(old(ghost.tainted), c, true))
+
+//@ func NewCollection
+//@   trusted
+//@   modifies nothing
+//@   ensures result != nil && fresh(result) && !ghost.tainted[result]
+//@ func (*Collection).Clone
+//@   trusted
+//@   modifies nothing
+//@   ensures result != nil && fresh(result) && ghost.tainted[result] == ghost.tainted[c]
+
+// Index coverage (C15, C07). ghost.cov[i][d]: index i covers document d - the
+// last Add or Remove of d on i that reported success was an Add (a ghost history
+// variable: its definition is the ghostdef clauses of Index.Add / Remove / Clone,
+// nothing else changes it). What a successful Add / Remove does to the btree is
+// the verified contract of bsonkit.Index.Add / Remove (ghost.tree); a document
+// that the partial filter excludes counts as covered without entries.
+// coherent(c): the documents of the collection are a well-formed set and every
+// index of the collection covers exactly them.
+//@ define covSet(i, d, v) = upd(old(ghost.cov), i, upd(old(ghost.cov)[i], d, v))
+//@ ghost cov (Array Int (Array Int Bool))
+//@ define wfDocs(s) = s != nil && s.Index != nil &&
+//@   forall(k, 0, len(s.List), has(s.Index, s.List[k]) && s.Index[s.List[k]] == k) &&
+//@   all(d, Ref, imp(has(s.Index, d), 0 <= s.Index[d] && s.Index[d] < len(s.List) && s.List[s.Index[d]] == d))
+//@ define ownDocs(s) = alloc(s.Index) > alloc(s) && (cap(s.List) == 0 || alloc(s.List.base) > alloc(s))
+//@ define wfIndex(i) = i != nil && i.base != nil && i.base.btree != nil
+//@ define coherent(c) = c != nil && c.Documents != nil && c.Indexes != nil && alloc(c.Documents) > alloc(c) && alloc(c.Indexes) > alloc(c) &&
+//@   wfDocs(c.Documents) && ownDocs(c.Documents) &&
+//@   all(n, Str, imp(has(c.Indexes, n), wfIndex(c.Indexes[n]) && all(d, Ref, ghost.cov[c.Indexes[n]][d] == has(c.Documents.Index, d))))
+
+//@ func Match
+//@   trusted
+//@   modifies nothing
+
+//@ func (*Index).Add
+//@   tags C15 C07
+//@   requires wfIndex(i)
+//@   modifies ghost.cov, ghost.tree
+//@   ensures [ghostdef] imp(err == nil && result0, ghost.cov == covSet(i, doc, true)) && imp(!(err == nil && result0), ghost.cov == old(ghost.cov))
+//@   ensures [C15,C07 name=rejected-unchanged] imp(err != nil || !result0, ghost.tree == old(ghost.tree))
+//@   ensures [C15 name=other-trees] all(t, Ref, imp(t != i.base.btree, ghost.tree[t] == old(ghost.tree)[t]))
+//@ func (*Index).Remove
+//@   tags C15
+//@   requires wfIndex(i)
+//@   modifies ghost.cov, ghost.tree
+//@   ensures [ghostdef] imp(err == nil && result0, ghost.cov == covSet(i, doc, false)) && imp(!(err == nil && result0), ghost.cov == old(ghost.cov))
+//@   ensures [C15 name=rejected-unchanged] imp(err != nil || !result0, ghost.tree == old(ghost.tree))
+//@   ensures [C15 name=other-trees] all(t, Ref, imp(t != i.base.btree, ghost.tree[t] == old(ghost.tree)[t]))
+//@ func (*Index).Has
+//@   tags C15
+//@   requires wfIndex(i)
+//@   modifies nothing
+
+// Insert: a collection that was coherent is coherent again after a successful
+// insert, and the document is its last one.
+//@ func (*Collection).Insert
+//@   trusted
+//@   modifies since(c), *doc, ghost.tainted, ghost.cov, ghost.tree
+//@   ensures failTaints(c) && imp(err == nil, result0 != nil)
+// draft (being built: the verified contract that replaces the trusted one)
+// @ func (*Collection).Insert
+// @   tags C15 C07 C02 C01
+// @   uses access
+// @   requires coherent(c) && doc != nil
+// @   modifies since(c), *doc, ghost.tainted, ghost.cov, ghost.tree
+// @   ensures [ghostdef] failTaints(c)
+// @   ensures [C02] imp(err == nil, result0 != nil)
+// @   ensures [C15,C07 name=coherent] imp(err == nil, coherent(c))
+// @   ensures [C15,C01 name=appended] imp(err == nil, len(c.Documents.List) == old(len(c.Documents.List)) + 1 && c.Documents.List[old(len(c.Documents.List))] == doc && !old(has(c.Documents.Index, doc)))
+// @   ensures [C15,C01 name=others-kept] imp(err == nil, forall(k, 0, old(len(c.Documents.List)), c.Documents.List[k] == old(c.Documents.List[k])))
+// @   loop 0 invariant all(n, Str, imp(has(c.Indexes, n), wfIndex(c.Indexes[n]) && all(d, Ref, imp(d != doc, ghost.cov[c.Indexes[n]][d] == has(c.Documents.Index, d)))))
+// @   loop 0 invariant all(n, Str, imp(has(c.Indexes, n) && visited(n), ghost.cov[c.Indexes[n]][doc]))
+//@ func (*Collection).Replace
+//@   trusted
+//@   modifies since(c), *repl, ghost.tainted, ghost.cov, ghost.tree
+//@   ensures failTaints(c) && imp(err == nil, result0 != nil)
+//@ func (*Collection).Update
+//@   trusted
+//@   modifies since(c), ghost.tainted, ghost.cov, ghost.tree
+//@   ensures failTaints(c) && imp(err == nil, result0 != nil)
+//@ func (*Collection).Upsert
+//@   trusted
+//@   modifies since(c), ghost.tainted, ghost.cov, ghost.tree
+//@   ensures failTaints(c) && imp(err == nil, result0 != nil)
+//@ func (*Collection).Delete
+//@   trusted
+//@   modifies since(c), ghost.tainted, ghost.cov, ghost.tree
+//@   ensures failTaints(c) && imp(err == nil, result0 != nil)
+//@ func (*Collection).CreateIndex
+//@   trusted
+//@   modifies since(c), ghost.tainted, ghost.cov, ghost.tree
+//@   ensures failTaints(c)
+//@ func (*Collection).DropIndex
+//@   trusted
+//@   modifies since(c), ghost.tainted, ghost.cov, ghost.tree
+//@   ensures failTaints(c)
+
+//@ func (*Collection).Find
+//@   tags C13 C01
+//@   opt slices = value
+//@   uses lists
+//@   requires c != nil && c.Documents != nil && query != nil
+//@   let base = ite(sort != nil && len(*sort) > 0, spec.sortedBy(c.Documents.List, *sort, docs()), c.Documents.List)
+//@   let F = spec.filtered(base, *query, docs())
+//@   let lo = ite(skip < len(F), skip, len(F))
+//@   let hi = ite(limit > 0 && skip + limit < len(F), skip + limit, len(F))
+//@   modifies nothing
+//@   ensures [C13,C01 name=window] imp(err == nil && skip >= 0, result0 != nil && len(result0.Matched) == hi - lo && forall(i, 0, hi - lo, result0.Matched[i] == F[lo + i]))
+
+// ---------------------------------------------------------------------------
+// apply.go: the field update operators (C11) and what they record for the
+// change log (C08), over the abstract view of Get / Put / Unset
+// (specs/access.smt2). The path tree of a Changes value is private to Record
+// and not modelled; Record's contract is trusted.
+
+//@ func (*Changes).Record
+//@   trusted
+//@   modifies mapof(c.Changed)
+//@   ensures imp(err == nil, has(c.Changed, path) && c.Changed[path] == val)
+//@   ensures all(k, Str, imp(k != path || err != nil, has(c.Changed, k) == old(has(c.Changed, k)) && c.Changed[k] == old(c.Changed[k])))
+
+//@ define opCtx(ctx, doc) = hastype(ctx.Value, "*mongokit.Changes") && asptr(ctx.Value, Changes).Changed != nil && doc != nil && spec.wfVal(spec.VDoc(*doc))
+//@ define nothingRecorded(ch) = all(k, Str, has(ch.Changed, k) == old(has(ch.Changed, k)) && ch.Changed[k] == old(ch.Changed[k]))
+
+//@ func applySet
+//@   tags C11 C08
+//@   uses access
+//@   let ch = asptr(ctx.Value, Changes)
+//@   requires opCtx(ctx, doc) && spec.wfVal(v)
+//@   ensures [C11 name=sets] imp(err == nil, *doc == spec.putPath(old(*doc), path, v, false))
+//@   ensures [C08 name=records-new-value] imp(err == nil, has(ch.Changed, path) && ch.Changed[path] == v)
+
+//@ func applyUnset
+//@   tags C11 C08
+//@   uses access
+//@   let ch = asptr(ctx.Value, Changes)
+//@   requires opCtx(ctx, doc)
+//@   ensures [C11 name=unsets] *doc == spec.unsetPath(old(*doc), path)
+//@   ensures [C11,C08 name=absent-is-noop] imp(old(spec.getPath(*doc, path)) == spec.VMissing, err == nil && nothingRecorded(ch))
+//@   ensures [C08 name=records-removal] imp(err == nil && old(spec.getPath(*doc, path)) != spec.VMissing, has(ch.Changed, path) && ch.Changed[path] == spec.VMissing)
+
+//@ func applyInc
+//@   tags C11 C08
+//@   uses access
+//@   let ch = asptr(ctx.Value, Changes)
+//@   let cur = ite(old(spec.getPath(*doc, path)) == spec.VMissing, spec.VI32(0), old(spec.getPath(*doc, path)))
+//@   requires opCtx(ctx, doc) && spec.wfVal(v)
+//@   ensures [C11 name=increments] imp(err == nil, *doc == spec.putPath(old(*doc), path, pure.bsonkit.Add(cur, v), false))
+//@   ensures [C08 name=records-new-value] imp(err == nil, has(ch.Changed, path) && ch.Changed[path] == pure.bsonkit.Add(cur, v))
+//@   ensures [C11 name=not-a-number] imp(pure.bsonkit.Add(cur, v) == spec.VMissing, err != nil && *doc == old(*doc) && nothingRecorded(ch))
+
+//@ func applyMul
+//@   tags C11 C08
+//@   uses access
+//@   let ch = asptr(ctx.Value, Changes)
+//@   let cur = ite(old(spec.getPath(*doc, path)) == spec.VMissing, spec.VI32(0), old(spec.getPath(*doc, path)))
+//@   requires opCtx(ctx, doc) && spec.wfVal(v)
+//@   ensures [C11 name=multiplies] imp(err == nil, *doc == spec.putPath(old(*doc), path, pure.bsonkit.Mul(cur, v), false))
+//@   ensures [C08 name=records-new-value] imp(err == nil, has(ch.Changed, path) && ch.Changed[path] == pure.bsonkit.Mul(cur, v))
+//@   ensures [C11 name=not-a-number] imp(pure.bsonkit.Mul(cur, v) == spec.VMissing, err != nil && *doc == old(*doc) && nothingRecorded(ch))
+
+// $max / $min: a missing field is set; otherwise the field is replaced only by a
+// strictly greater / smaller value, and an update that changes nothing writes
+// and records nothing (so applying it a second time is a no-op, and it reports
+// zero modified).
+
+//@ func applyMax
+//@   tags C11 C08
+//@   uses access order
+//@   let ch = asptr(ctx.Value, Changes)
+//@   let cur = old(spec.getPath(*doc, path))
+//@   requires opCtx(ctx, doc) && spec.wfVal(v)
+//@   ensures [C11,C08 name=keeps-greater-or-equal] imp(cur != spec.VMissing && spec.cmp(cur, v) >= 0, err == nil && *doc == old(*doc) && nothingRecorded(ch))
+//@   ensures [C11 name=replaces-smaller] imp(err == nil && (cur == spec.VMissing || spec.cmp(cur, v) < 0), *doc == spec.putPath(old(*doc), path, v, false))
+//@   ensures [C08 name=records-new-value] imp(err == nil && (cur == spec.VMissing || spec.cmp(cur, v) < 0), has(ch.Changed, path) && ch.Changed[path] == v)
+
+//@ func applyMin
+//@   tags C11 C08
+//@   uses access order
+//@   let ch = asptr(ctx.Value, Changes)
+//@   let cur = old(spec.getPath(*doc, path))
+//@   requires opCtx(ctx, doc) && spec.wfVal(v)
+//@   ensures [C11,C08 name=keeps-smaller-or-equal] imp(cur != spec.VMissing && spec.cmp(cur, v) <= 0, err == nil && *doc == old(*doc) && nothingRecorded(ch))
+//@   ensures [C11 name=replaces-greater] imp(err == nil && (cur == spec.VMissing || spec.cmp(cur, v) > 0), *doc == spec.putPath(old(*doc), path, v, false))
+//@   ensures [C08 name=records-new-value] imp(err == nil && (cur == spec.VMissing || spec.cmp(cur, v) > 0), has(ch.Changed, path) && ch.Changed[path] == v)
+
 // ---------------------------------------------------------------------------
 // project.go
 //
